@@ -27,6 +27,8 @@ Judge(e) ==
      /\ say(v >= 0 /\ (HasN(w) => v > 0), "volume-not-positive")
      /\ (e.aligned => say(VerticesOnSurface(w, PT), "vertex-not-on-straddling-edge"))
      /\ (e.aligned => say(v = e.vol, "projection-volume-mismatch"))
+     \* sign-only worlds: every triangle's normal points from the negative to the positive lattice ends
+     /\ ((e.aligned /\ e.base = 2) => say(LocalOriented(w, PT), "normal-against-gradient"))
      /\ (e.aligned => (IF SameBag(PT, WorldTris(w)) THEN TRUE ELSE PrintT(<<"DRIFT", l>>)))
 
 Next == /\ l <= Len(Trace)
